@@ -248,10 +248,10 @@ func VH_C14_ZeroTimeout() {
 		}
 		out = append(out, m)
 	}
-	b.SetRecvTimeout(time.Hour)
+	b.SetRecvTimeout(2 * time.Second)
 	for len(out) < 2 {
 		m, err := b.Recv()
-		vAssert(err == nil, "Recv failed although data is queued and the timeout is an hour")
+		vAssert(err == nil, "Recv failed although data is queued and the timeout is two seconds (a message was merged into its predecessor or lost)")
 		if err != nil {
 			return
 		}
